@@ -1729,6 +1729,9 @@ impl<'a> Parser<'a> {
             arg_count += 1;
         }
 
+        if arg_count > u8::MAX as usize {
+            s.error("Cannot have more than 255 parts in an interpolated string.");
+        }
         s.emit_bytes([OpCode::BuildString as u8, arg_count as u8]);
     }
 
